@@ -163,6 +163,82 @@ def history(k, maxq_hi, thr_hi, ops):
     return h
 
 
+def threads(ops_per_thread, preempt, prefill):
+    """2 threads x 1-2 operations on one Lysosome under the controlled scheduler"""
+    from symx.sched import Scheduler
+    from symx.core import Deadlock
+
+    def h(c):
+        clock = SymClock(c)
+        ly, w = build(c, clock, 4, 4)
+        if c.mode != "sym":
+            shim_locks(ly)          # the scheduler needs the shims in replay too
+        for i in range(prefill):
+            it = w.waste_factory(waste_type=WasteType.MISFOLDED_PROTEIN, content={"raw_input": "x"}, source="pre")
+            w.items.append(it)
+            ly._queue.append(it)
+            ly._total_ingested += 1
+        results = {}
+
+        def do(op, key):
+            if op == "ingest_misfolded":
+                it = w.waste_factory(waste_type=WasteType.MISFOLDED_PROTEIN, content={"raw_input": "x", "error": "e"}, source="t")
+                w.items.append(it)
+                ly.ingest(it)
+            elif op == "ingest_sensitive":
+                it = w.waste_factory(waste_type=WasteType.TOXIC_BYPRODUCT, content={"secret": 1}, source="t", priority=10)
+                w.items.append(it)
+                ly.ingest(it)
+            elif op == "digest_all":
+                results[key] = ly.digest()
+            elif op == "digest_1":
+                results[key] = ly.digest(1)
+            elif op == "autophagy":
+                qb = list(ly._queue)
+                results[key] = ly.autophagy()
+
+        def mk(ti):
+            def run():
+                for oi, op in enumerate(ops_per_thread[ti]):
+                    do(op, (ti, oi))
+            return run
+        sch = Scheduler(c, [LY.__file__], preempt_bound=preempt)
+        info = {"threads": ops_per_thread, "prefill": prefill}
+        try:
+            workers = sch.run([mk(ti) for ti in range(len(ops_per_thread))])
+        except Deadlock as e:
+            c.fail("C13.a", {"what": "deadlock / call did not return under this schedule", "detail": str(e), "schedule": sch.trace[-12:], **info})
+            return
+        for wk in workers:
+            if wk.exc is not None:
+                c.fail("C13.a", {"what": "call raised under this schedule", "raised": repr(wk.exc), **info})
+                return
+        c.check("C13.a", True)
+        info["schedule"] = sch.trace[-12:]
+        # quiescence: bounded queue, every item in exactly one place, toxic handling
+        q = list(ly._queue)
+        c.check("C13.b", len(q) <= ly.max_queue_size, {"what": "queue above max_queue_size", "len": len(q), **info})
+        ids_q = [id(x) for x in q]
+        for it in w.items:
+            n_q = ids_q.count(id(it))
+            n_d = sum(1 for x in w.digested if x is it)
+            n_e = sum(1 for x in w.errored if x is it)
+            c.check("C13.c", n_q + n_d + n_e == 1, {"what": "item lost or duplicated under this schedule", "queued": n_q, "digested": n_d, "errors": n_e, **info})
+            if it.waste_type is WasteType.TOXIC_BYPRODUCT:
+                n_cb = sum(1 for x in w.toxic_cb if x is it)
+                c.check("C13.d", n_cb <= 1 and (n_cb == 1) == (n_d + n_e == 1), {"what": "toxic callback count", "callbacks": n_cb, **info})
+        c.check("C13.c-count", ly._total_ingested == len(w.items), {"what": "total_ingested lost an update", "counter": ly._total_ingested, "items": len(w.items), **info})
+        c.check("C13.c-count", ly._total_digested == len(w.digested), {"what": "total_digested lost an update", "counter": ly._total_digested, "digested": len(w.digested), **info})
+        c.observe("queue", len(q))
+        c.observe("digested", len(w.digested))
+    return h
+
+
+TH_Q = [([["ingest_misfolded"], ["ingest_misfolded"]], 1), ([["ingest_misfolded"], ["digest_all"]], 1), ([["digest_all"], ["digest_1"]], 2),
+        ([["ingest_sensitive"], ["digest_all"]], 1), ([["ingest_misfolded", "ingest_misfolded"], ["digest_1"]], 1)]
+TH_T = TH_Q + [([["ingest_misfolded"], ["ingest_misfolded"]], 3), ([["digest_all"], ["digest_all"]], 2), ([["ingest_sensitive"], ["ingest_misfolded"]], 2),
+               ([["ingest_misfolded", "digest_all"], ["ingest_misfolded"]], 1), ([["ingest_misfolded"], ["ingest_misfolded"], ["digest_all"]], 1)]
+
 OPS_Q = ["ingest_misfolded", "ingest_error", "ingest_sensitive", "digest_all", "digest_1", "autophagy", "advance"]
 OPS_T = OPS_Q + ["ingest_expired", "digest_0", "digest_2"]
 
@@ -171,18 +247,22 @@ HARNESSES = {
                 "jobs": lambda tier: ([{"k": 5, "maxq_hi": 8, "thr_hi": 8, "ops": OPS_Q}] if tier == "quick" else
                                       [{"k": 6, "maxq_hi": 8, "thr_hi": 8, "ops": OPS_Q}, {"k": 5, "maxq_hi": 8, "thr_hi": 8, "ops": OPS_T}]),
                 "clauses": ["C13.a", "C13.b", "C13.c", "C13.c-count", "C13.c-result", "C13.c-autophagy", "C13.d"]},
+    "threads": {"make": threads, "witness_every": 23,
+                "jobs": lambda tier: ([{"ops_per_thread": o, "preempt": 1, "prefill": p} for o, p in TH_Q] if tier == "quick" else
+                                      [{"ops_per_thread": o, "preempt": 2, "prefill": p} for o, p in TH_T]),
+                "clauses": ["C13.a", "C13.b", "C13.c", "C13.c-count"]},
 }
 
 META = {
     "manifest": {
         "text": "Bounded symbolic model checking of the implementation: histories of ingest/ingest_error/ingest_sensitive/digest(k)/autophagy/clock-advance run through the real Lysosome with symbolic max_queue_size (2..8) and auto_digest_threshold (1..8) (z3 decides every capacity/threshold comparison, so one path covers all configurations that behave alike), digesters and the toxic callback that may raise per item, a symbolic clock for retention, and a lock shim of the constructed kind so that a self-deadlock is decided instead of hanging. Item-wise conservation is checked through object identities after every call.",
-        "note": "Trusted: z3, CPython, SymX. Sequential histories only in this harness (threads: see C05-style scheduler harness when present). 'exactly once' for the toxic callback is read as: at most once, and once when the item is digested (an item expired by autophagy reaches no callback).",
+        "note": "Trusted: z3, CPython, SymX. Thread interleavings are explored by the controlled scheduler of symx.sched at source-line granularity under a preemption bound. 'exactly once' for the toxic callback is read as: at most once, and once when the item is digested (an item expired by autophagy reaches no callback).",
         "technique": "symbolic execution of lysosome.py histories (symbolic capacity/threshold/clock via z3, adversarial digesters, lock shim), identity-based conservation oracle",
     },
     "files": ["operon_ai/organelles/lysosome.py"],
-    "bounds": {"quick": "k=5 calls over 7 operations; max_queue_size 2..8 and auto_digest_threshold 1..8 symbolic",
-               "thorough": "k=6 over 7 operations; k=5 over 10 operations"},
-    "outside": ["histories longer than k (the queue can hold at most k items here, so capacities above k behave as unbounded)", "concurrent callers", "autophagy daemon thread"],
+    "bounds": {"quick": "sequential: k=5 calls over 7 operations; max_queue_size 2..8 and auto_digest_threshold 1..8 symbolic. threads: 5 configurations of 2 threads x 1-2 operations, preemption bound 1, line granularity, max_queue_size 2..4, threshold 1..4 symbolic",
+               "thorough": "sequential k=6 over 7 operations, k=5 over 10; threads: 10 configurations incl. 3 threads, preemption bound 2"},
+    "outside": ["thread schedules beyond the preemption bound, preemption inside a source line", "histories longer than k (the queue can hold at most k items here, so capacities above k behave as unbounded)", "concurrent callers", "autophagy daemon thread"],
     "float_argument": "none",
     "assumptions": ["lysosome.datetime and the Waste factory use the symbolic clock", "every digester is wrapped by a stub that may raise before delegating to the real digester"],
     "must_cover": [("operon_ai/organelles/lysosome.py", "self._emergency_digest()"),
